@@ -378,6 +378,11 @@ namespace cds { namespace algo {
             unsigned rest = static_cast<unsigned>( rest_count());
             if ( rest < count )
                 count = rest;
+            if ( count == sizeof( int_type ) * c_nBitPerByte ) {
+                // the whole number is requested: cut() cannot shift by the full width of int_type
+                shift_ = count;
+                return number_;
+            }
             return count ? cut( count ) : 0;
         }
 
